@@ -228,6 +228,10 @@ WAKE07 = [  # two threads contend on ONE identifier while a third takes and rele
     ("so 1 p 7 1 n n ; so 2 p 8 1 n n", "del 1 || del 1 || del 2"),                # object-locked pids
     ("so 1 p 7 1 n n ; so 2 p 7 1 n n ; so 3 p 8 1 n n", "del 1 || del 2 || del 3"),
     ("so - p 7 1 n n", "tag 1 7 || tag 2 7 || tag 3 7"),
+    # three contenders for ONE identifier (two of them wait at the same time; who is told when the second holder leaves?)
+    ("so 1 p 7 1 n n", "del 1 || del 1 || del 1"),                                  # object-locked pid
+    ("", "so 1 p 7 1 n n || del 1 || del 1"),
+    ("so - p 7 1 n n ; so - p 8 1 n n", "tag 1 7 || tag 1 8 || tag 1 7"),          # reference-locked pid
 ]
 WAKE12 = [
     ("", "sm 1 1 p 1 1 || sm 1 1 p 2 1 || sm 1 2 p 1 1"),                           # metadata documents
@@ -235,6 +239,7 @@ WAKE12 = [
     ("sm 1 1 p 1 1 ; sm 1 2 p 1 1", "dm 1 - || sm 1 1 p 2 1 || sm 1 2 p 2 1"),
     ("sm 1 1 p 1 1 ; sm 1 2 p 1 1", "dm 1 1 || dm 1 1 || sm 1 2 p 2 1"),          # two deleters of one document, a third call releases another
     ("sm 1 1 p 1 1", "sm 1 1 p 2 1 || dm 1 1 || sm 1 2 p 1 1"),
+    ("", "sm 1 1 p 1 1 || sm 1 1 p 2 1 || dm 1 1"),                                 # three contenders for one document
 ]
 
 
